@@ -326,3 +326,35 @@ pub fn first_diff<T: PartialEq>(a: &[T], b: &[T]) -> Option<usize> {
   }
   (0..a.len()).find(|&i| a[i] != b[i])
 }
+
+impl Stream {
+  /// Attribution of every byte of `text` using only the reported chunk
+  /// *positions* (works for text-less final-source streams too): columns=true
+  /// takes the last chunk reported at or before the byte on its line,
+  /// columns=false the first mapped chunk reported on the line.
+  pub fn attr_by_position(&self, text: &str, columns: bool) -> Vec<AttrFull> {
+    let (pos, _) = positions(text);
+    let mut by_line: BTreeMap<u32, Vec<&Chunk>> = BTreeMap::new();
+    for c in &self.chunks {
+      by_line.entry(c.line).or_default().push(c);
+    }
+    pos
+      .iter()
+      .map(|(l, c)| {
+        let Some(v) = by_line.get(l) else { return None };
+        if columns {
+          let mut best: Option<&Chunk> = None;
+          for ch in v {
+            if ch.col <= *c {
+              best = Some(ch);
+            }
+          }
+          self.attr_of(&best.and_then(|b| b.orig))
+        } else {
+          let first = v.iter().find(|ch| ch.orig.is_some());
+          self.attr_of(&first.and_then(|b| b.orig)).map(|(f, ct, ol, _, _)| (f, ct, ol, 0, None))
+        }
+      })
+      .collect()
+  }
+}
